@@ -229,6 +229,30 @@ def run_case(cfg):
             match = got == stream(d, Rd[d], len(got))
             tr.emit("RD", d=d, max=mx, min=mn, len=len(got), match=match, closed=bool(conn.closed))
             Rd[d] += len(got)
+    # ---- tail: one side writes k more bytes and closes; the other asked for more than k and must get exactly
+    # those k bytes when the close_notify arrives (nothing already received is lost on close)
+    if not info["problems"]:
+        d = "c2s" if cfg["case"] % 2 == 0 else "s2c"
+        who, peer = ("c", "s") if d == "c2s" else ("s", "c")
+        k = 1 + (cfg["case"] * 37) % 300
+        data = stream(d, W[d], k)
+        tr.emit("W", d=d, n=k)
+        o = p.write(who, data)
+        if o.ok:
+            W[d] += k
+            tr.emit("WE", d=d)
+            p.close(who)
+            conn = p.s if peer == "s" else p.c
+            o = p.op(peer, _read_gen(conn, None, k + 50))
+            if not o.ok or o.value is None:
+                info["problems"].append("read at close: %s" % o.describe())
+                tr.emit("RX", d=d, exc=o.describe())
+            else:
+                got = bytes(o.value)
+                tr.emit("RD", d=d, max=-1, min=k + 50, len=len(got), match=got == stream(d, Rd[d], len(got)), closed=bool(conn.closed))
+                Rd[d] += len(got)
+        else:
+            info["problems"].append("tail write raised %s" % o.describe())
     info["bytes"] = W
     info["nev"] = len(tr.events)
     return tr.events, info
